@@ -19,6 +19,10 @@ def crawl(*items):
     return ("crawl", tuple((s, tuple(ts)) for s, ts in items))
 
 
+def pcrawl(nsteps, *items):
+    return ("pcrawl", tuple((s, tuple(ts)) for s, ts in items), nsteps)
+
+
 def create(*prefixes):
     return ("create", tuple(prefixes))
 
@@ -105,5 +109,36 @@ def R3():
     ll = long_lrus()
     return tuple(page(u, i % 2 == 0) for i, u in enumerate(ll))
 
+
+def all_crawl_batches(pages, max_sources=2, max_targets=2):
+    """Every crawl batch with 1..max_sources distinct sources (ordered) over `pages`, each with
+    an ordered target list of 0..max_targets pages (repetitions and self allowed)."""
+    import itertools
+
+    tlists = [()]
+    for n in range(1, max_targets + 1):
+        tlists += list(itertools.product(pages, repeat=n))
+    out = []
+    for ns in range(1, max_sources + 1):
+        for srcs in itertools.permutations(pages, ns):
+            for tl in itertools.product(tlists, repeat=ns):
+                out.append(crawl(*zip(srcs, tl)))
+    return out
+
+
+def all_link_batches(pages, max_links=3):
+    """Every add_links batch of 1..max_links links (ordered, repetitions and self-links allowed)."""
+    import itertools
+
+    pairs = list(itertools.product(pages, repeat=2))
+    out = []
+    for n in range(1, max_links + 1):
+        for seq in itertools.product(pairs, repeat=n):
+            out.append(links(*seq))
+    return out
+
+
+SH = b"s:http|"  # a one-stem prefix (scheme-wide catch-all webentity)
+LONGP = Ab + L.long_stem(149)  # a page with a 3-block stem below Ab
 
 PROBES = [A, Ax, Axy, Ab, Az, Aw, Awx, S, Sx, Bb, C1] + L.ABSENT
